@@ -445,7 +445,9 @@ class Decimal(Element):
     def _unconvert_decimal(self, value: decimal.Decimal):
         if self.scale is not None and not value.same_quantum(self.scale):
             raise ValueError(f"'{value}' doesn't match scale={self.scale}")
-        return str(value)
+        if not value.is_finite():
+            raise ValueError(f"'{value}' is not a finite number")
+        return format(value, "f")
 
     @unconvert.register
     def _unconvert_none(self, value: None) -> None:
